@@ -23,7 +23,7 @@ ASSUMPTIONS = ["msdparser.parse_msd", "the syntactic gap guard is a superset of 
 MONITORS = ["serialize_loaded", "reload_equal", "second_save_identical"]
 REQUIRED = ["key_only_loaded", "lower_case_key", "duplicate_key", "param_after_notes", "lenient_with_stray",
             "chart_both_notes_and_notes2", "corpus_mutation", "sm_chart_loaded", "ssc_chart_loaded", "sm_backslash_without_other_meta",
-            "ssc_version_not_first", "key_only_multi_value_in_chart"]
+            "ssc_version_not_first", "key_only_multi_value_in_chart", "sm_twin_charts_differing_in_extradata"]
 
 
 def anchors():
@@ -191,6 +191,10 @@ def observe(ctx, a, text, strict, case):
     if a.charts:
         ctx.feat("sm_chart_loaded" if type(a) is SMSimfile else "ssc_chart_loaded")
     if type(a) is SMSimfile:
+        for i, c in enumerate(a.charts):
+            for d in a.charts[:i]:
+                if c == d and list(c.extradata or []) != list(d.extradata or []):
+                    ctx.feat("sm_twin_charts_differing_in_extradata")
         for c in a.charts:
             comps = [c.stepstype, c.description, c.difficulty, c.meter, c.radarvalues, c.notes] + list(c.extradata or [])
             if any("\\" in x for x in comps) and not any(m in x for x in comps for m in (":", ";", "//")):
